@@ -244,3 +244,37 @@ def widen(obj, ovo, P, A, eps):
         return 0.0, True
     extra = 64 * P.shape[0] * 1.2e-16 * C
     return extra, extra > 1e-3
+
+
+def ref_score_vec(obj, ovo, P, A):
+    """Vectorised textbook definitions for large shapes (f-divergences and MMD; the same quantities as ref_score,
+    computed with whole-array numpy operations instead of loops over clusters)."""
+    n, K = P.shape
+    pi = P.mean(0)
+    q = P / (n * pi)                       # (n, K): column k is the conditional of cluster k
+    p = np.full((n, 1), 1.0 / n)
+    if obj in ("kl", "tv", "he", "chi"):
+        def dist_cols(a, b):               # a, b broadcastable to (n, ...): distance along axis 0
+            if obj == "kl":
+                return np.sum(a * np.log(a / b), axis=0)
+            if obj == "tv":
+                return 0.5 * np.sum(np.abs(a - b), axis=0)
+            if obj == "he":
+                return 1.0 - np.sum(np.sqrt(a * b), axis=0)
+            return np.sum((a - b) ** 2 / b, axis=0)
+        if not ovo:
+            val = float(np.sum(pi * dist_cols(q, p)))
+        else:
+            d = dist_cols(q[:, :, None], q[:, None, :])      # (K, K)
+            val = float(pi @ d @ pi)
+        return (val + 1) / 2 if obj == "chi" else val
+    if obj == "mmd":
+        if not ovo:
+            diff = q - p
+            sq = np.einsum("ik,ij,jk->k", diff, A, diff)
+            return float(np.sum(pi * np.sqrt(np.maximum(sq, 0))))
+        G = q.T @ A @ q
+        dg = np.diag(G)
+        sq = dg[:, None] + dg[None, :] - 2 * G
+        return float(pi @ np.sqrt(np.maximum(sq, 0)) @ pi)
+    raise ValueError(obj)
